@@ -80,10 +80,15 @@ const (
 	sSigCorrupt
 	sNoIntermediate
 	sKeySubst
+	sWrongEKU      // leaf carries only the clientAuth extended key usage
+	sExpiredInterm // leaf valid, the intermediate that issued it expired before Config.Time
+	sIPMatch       // ServerName is an IP address, the leaf has exactly that iPAddress SAN
+	sIPMismatch    // ServerName is an IP address, the leaf has another iPAddress SAN (and the address as CN / dNSName text)
 	nSScen
 )
 
-var sScenNames = [...]string{"trusted", "untrusted-root", "expired", "not-yet-valid", "wrong-name", "wrong-key", "sig-corrupt", "intermediate-missing", "key-substitution"}
+var sScenNames = [...]string{"trusted", "untrusted-root", "expired", "not-yet-valid", "wrong-name", "wrong-key", "sig-corrupt", "intermediate-missing", "key-substitution",
+	"wrong-eku", "expired-intermediate", "ip-san-match", "ip-san-mismatch"}
 
 type cScen int
 
@@ -94,10 +99,11 @@ const (
 	cExpired
 	cWrongKey
 	cCVCorrupt
+	cWrongEKU // leaf carries only the serverAuth extended key usage
 	nCScen
 )
 
-var cScenNames = [...]string{"none", "trusted", "untrusted", "expired", "wrong-key", "cv-corrupt"}
+var cScenNames = [...]string{"none", "trusted", "untrusted", "expired", "wrong-key", "cv-corrupt", "wrong-eku"}
 
 var authModes = []tls.ClientAuthType{tls.NoClientCert, tls.RequestClientCert, tls.RequireAnyClientCert, tls.VerifyClientCertIfGiven, tls.RequireAndVerifyClientCert}
 var authNames = [...]string{"NoClientCert", "RequestClientCert", "RequireAnyClientCert", "VerifyClientCertIfGiven", "RequireAndVerifyClientCert"}
@@ -232,7 +238,7 @@ func buildConfigs(g cfg, p *pki) (cc, sc *tls.Config, m *mitm, probes *probe) {
 	cc = &tls.Config{
 		Rand: tlsx.NewDetRand("c-" + seed), Time: tlsx.Now,
 		MinVersion: g.Vers, MaxVersion: g.Vers,
-		ServerName: serverName, RootCAs: p.pool(p.sroot),
+		ServerName: serverNameFor(g.SScen), RootCAs: p.pool(p.sroot),
 		InsecureSkipVerify: g.ISV,
 	}
 	sc = &tls.Config{
@@ -299,20 +305,55 @@ type probe struct {
 	clientAsked            bool
 }
 
+// extras is what the resumption axis additionally observes on one connection.
+type extras struct {
+	cRes, sRes bool     // ConnectionState.DidResume on each end
+	srvPeer    [][]byte // the server's view of the client's certificates (DER)
+	c2s, s2c   []byte
+}
+
 func runOnce(g cfg, p *pki) result {
 	cc, sc, m, pr := buildConfigs(g, p)
 	var prep func(n *tlsx.Net)
 	if m != nil {
 		prep = func(n *tlsx.Net) { n.Mitm = m.rewrite }
 	}
+	r, _ := execute(cc, sc, prep)
+
+	r.SrvSigFlipped, r.SrvSigLen = pr.srvFlipped, pr.srvSigLen
+	r.CliSigFlipped, r.CliSigLen = pr.cliFlipped, pr.cliSigLen
+	r.LeafReplaced = pr.leafReplaced
+	r.ClientSentCrt = pr.clientAsked
+	if m != nil {
+		if m.skxFlip != -2 {
+			r.SrvSigFlipped, r.SrvSigLen = m.skxDone, m.skxLen
+		}
+		if m.cvFlip != -2 {
+			r.CliSigFlipped, r.CliSigLen = m.cvDone, m.cvLen
+		}
+		if m.leafSub != nil {
+			r.LeafReplaced = m.subDone
+		}
+		r.HarnessBad = m.bad
+	}
+	return r
+}
+
+// execute runs one handshake plus the application-data round trip.
+func execute(cc, sc *tls.Config, prep func(n *tlsx.Net)) (result, extras) {
 	s := tlsx.Handshake(cc, sc, prep)
 	var r result
+	var x extras
 	r.ClientErr, r.ServerErr = errStr(s.Client.Err), errStr(s.Server.Err)
 	if s.Client.Panic != "" || s.Server.Panic != "" {
 		r.Panic = "client: " + s.Client.Panic + " | server: " + s.Server.Panic
 	}
 	if s.Client.OKDone && s.Server.OKDone {
 		r.NegVers, r.NegSuite = s.Client.State.Version, s.Client.State.CipherSuite
+		x.cRes, x.sRes = s.Client.State.DidResume, s.Server.State.DidResume
+		for _, pc := range s.Server.State.PeerCertificates {
+			x.srvPeer = append(x.srvPeer, pc.Raw)
+		}
 		// application-data round trip: "ping" -> server, "pong" -> client
 		var wg sync.WaitGroup
 		var sErr error
@@ -380,24 +421,8 @@ func runOnce(g cfg, p *pki) result {
 		r.Records += len(tlsx.ParseRecords(s.Net.Stream(d)))
 	}
 	r.Transcript = hex.EncodeToString(h.Sum(nil))
-
-	r.SrvSigFlipped, r.SrvSigLen = pr.srvFlipped, pr.srvSigLen
-	r.CliSigFlipped, r.CliSigLen = pr.cliFlipped, pr.cliSigLen
-	r.LeafReplaced = pr.leafReplaced
-	r.ClientSentCrt = pr.clientAsked
-	if m != nil {
-		if m.skxFlip != -2 {
-			r.SrvSigFlipped, r.SrvSigLen = m.skxDone, m.skxLen
-		}
-		if m.cvFlip != -2 {
-			r.CliSigFlipped, r.CliSigLen = m.cvDone, m.cvLen
-		}
-		if m.leafSub != nil {
-			r.LeafReplaced = m.subDone
-		}
-		r.HarnessBad = m.bad
-	}
-	return r
+	x.c2s, x.s2c = s.Net.Stream(tlsx.C2S), s.Net.Stream(tlsx.S2C)
+	return r, x
 }
 
 func sameOutcome(a, b result) (bool, string) {
@@ -442,6 +467,20 @@ func outcomeClass(r result) string {
 		return "data phase fails: " + short(r.DataErr)
 	}
 	return "fails: c=" + short(r.ClientErr) + " s=" + short(r.ServerErr)
+}
+
+// causeClasses reduces the failed clauses to their kinds (for signatures).
+func causeClasses(causes []string) string {
+	seen := map[string]bool{}
+	var out []string
+	for _, c := range causes {
+		k := strings.SplitN(c, ":", 2)[0]
+		if !seen[k] {
+			seen[k] = true
+			out = append(out, k)
+		}
+	}
+	return strings.Join(out, "+")
 }
 
 // ---- evaluation -----------------------------------------------------------------
@@ -529,6 +568,13 @@ func evaluate(c *ev.Ctx, p *pki, g cfg, twice bool, st *evalStats, strictISV boo
 		st.hist["expected failure -> "+oc]++
 		if r1.Complete {
 			c.Violation("completed-but-must-fail: "+strings.Join(causes, " + "), w)
+		} else if side := abortingSide(g.Kex, g.SScen, g.ISV, authModes[g.Mode], g.CScen); side != "" {
+			// the handshake must fail BECAUSE of the clause: the peer that owns the failed
+			// check is the one that ends it with an error of its own
+			st.hist["expected failure by the "+side+" -> "+strings.SplitN(oc, ":", 2)[0]]++
+			if !strings.HasPrefix(oc, side+" aborts") {
+				c.Violation(fmt.Sprintf("failed for another reason than the expected one: %s must abort (%s) but: %s", side, causeClasses(causes), strings.SplitN(oc, ":", 2)[0]), w)
+			}
 		}
 	case unspecified:
 		st.hist["statement silent (verification off, possession not proven: "+strings.Join(causes, " + ")+") -> "+map[bool]string{true: "complete", false: "not complete"}[r1.Complete]]++
@@ -543,16 +589,40 @@ func main() {
 			c.Broken("PKI fixture labels disagree with the Go standard library verifier: %v", err)
 		}
 		strictISV := os.Getenv("C27_STRICT_ISV") == "1"
-		c.Rule("full product versions{1.0,1.1,1.2,1.3} x kex{RSA,ECDHE-RSA,ECDHE-ECDSA,DHE-RSA | TLS1.3 with RSA-PSS / ECDSA leaf} x server scenario(9) x InsecureSkipVerify{f,t} x ClientAuth(5) x client scenario(6), pruned only by: class exists in version; static RSA has no server signature to corrupt. A point is non-trivial when some non-baseline value is active (server scenario != trusted, client scenario not in {none,trusted}, or a certificate is requested)")
+		c.Rule("(1) full product versions{1.0,1.1,1.2,1.3} x kex{RSA,ECDHE-RSA,ECDHE-ECDSA,DHE-RSA | TLS1.3 with RSA-PSS / ECDSA leaf} x server scenario(13: trusted, untrusted root, expired, not yet valid, wrong name, wrong key, corrupted signature, intermediate missing, key substitution, clientAuth-only EKU, expired intermediate, IP ServerName with / without matching iPAddress SAN) x InsecureSkipVerify{f,t} x ClientAuth(5) x client scenario(7: none, trusted, untrusted, expired, wrong key, corrupted CertificateVerify, serverAuth-only EKU), pruned only by: class exists in version; static RSA has no server signature to corrupt. A point is non-trivial when some non-baseline value is active (server scenario != trusted, client scenario not in {none,trusted}, or a certificate is requested). Where the handshake must fail, the endpoint owning the failed check must be the one that aborts. " +
+			"(2) resumption axis: pairs (issue connection at T0, resume connection offering its ticket to a server with the same ticket key): version(4) x server scenario{trusted 20y, leaf expiring T0+24h, untrusted root, wrong name} x issue-ISV{f,t} x issue ClientAuth(5) x issue client certificate{none, trusted 20y, expiring T0+24h, untrusted} [pruned: issue connection must fail; certificate never requested = none] x resume-ISV{f,t} x resume ServerName{same, other.example} x resume ClientAuth(5) x ClientCAs{same, replaced} x client certificate for a full handshake{none, trusted} x both clocks{T0, T0+48h}. Quick: the two covering slices (all server-side dimensions with client authentication off; all client-authentication dimensions with the trusted long-lived server) for ECDHE-ECDSA / TLS1.3-ECDSA; thorough: the slices for every key-exchange class plus the whole product for ECDHE-ECDSA / TLS1.3-ECDSA")
 		c.Assume(
 			"oracle = truth table over the scenario labels (by construction of the PKI; labels cross-checked at start against Go's crypto/x509.Verify, never against zcrypto)",
 			"completes = both Handshake() return nil and a ping/pong application-data round trip succeeds",
 			"with InsecureSkipVerify and a server that does not prove possession the statement is silent ('with verification enabled ...'): both behaviours accepted and counted separately (C27_STRICT_ISV=1 demands failure as DESIGN.md sketches)",
 			"TLS 1.3 flights are encrypted: an in-flight signature corruption is modelled by a crypto.Signer that flips one byte of its output, an in-flight leaf substitution by a peer presenting the other trusted leaf while signing with the original key",
 			"in-flight edits of TLS<=1.2 plaintext flights are located by the harness' own record/handshake parser",
+			"resumption axis: the client's session cache is the harness' own (hands the issued session out whatever the cache key); a connection counts as resumed when DidResume of either end or the handshake shape on the wire says so; possession of the stored certificate's key was proven in the issue connection (all issue scenarios use the genuine key); with a ticket in hand a connection the statement does not forbid must complete (resumed or by full handshake) except when the session's stored client chain fails resume-time verification (failing is then what the statement says); a session WITH client certificate offered to a server that asks for none: both behaviours accepted",
 		)
 
 		if c.Replay != nil {
+			var ax struct {
+				Axis string `json:"axis"`
+			}
+			json.Unmarshal(c.Replay, &ax)
+			if ax.Axis == "resume" {
+				var w rwitness
+				if err := json.Unmarshal(c.Replay, &w); err != nil {
+					c.Broken("bad witness: %v", err)
+				}
+				g := w.Config
+				if err := g.parse(); err != nil {
+					c.Broken("bad witness: %v", err)
+				}
+				st := &evalStats{hist: ev.Hist{}}
+				(&resumeEngine{p: p, issues: map[string]*issued{}}).evaluate(c, g, st)
+				fmt.Printf("replay %s\n  %v\n", g, st.hist)
+				c.States.Add(1)
+				c.Traces.Add(st.identical)
+				c.Transitions.Add(st.records)
+				c.Merge(st.hist)
+				return
+			}
 			var w witness
 			if err := json.Unmarshal(c.Replay, &w); err != nil {
 				c.Broken("bad witness: %v", err)
@@ -619,6 +689,63 @@ func main() {
 			c.Incomplete("budget hit inside the base product (every point twice)")
 		}
 
+		// ---- resumption axis (resume.go) ----
+		var resumeStates int64
+		if done {
+			quickKex := func(v uint16) []kexClass {
+				if v == tls.VersionTLS13 {
+					return []kexClass{kexTLS13ECDSA}
+				}
+				return []kexClass{kexECDHEECDSA}
+			}
+			allKex := func(v uint16) []kexClass {
+				var out []kexClass
+				for k := kexClass(0); k < nKex; k++ {
+					if ok, _ := valid(v, k, sTrusted); ok {
+						out = append(out, k)
+					}
+				}
+				return out
+			}
+			rpoints, rpruned := resumePoints(false, ev.Pick(c, quickKex, allKex))
+			if !c.Quick() {
+				// the whole product for the cheapest class of each version, after the slices of every class
+				full, _ := resumePoints(true, quickKex)
+				seen := map[string]bool{}
+				for _, g := range rpoints {
+					seen[g.String()] = true
+				}
+				for _, g := range full {
+					if !seen[g.String()] {
+						rpoints = append(rpoints, g)
+					}
+				}
+			}
+			c.Set("resume_axis_points", len(rpoints))
+			c.Set("resume_axis_issue_configs_pruned(connection 1 must fail by the truth table)", rpruned)
+			eng := &resumeEngine{p: p, issues: map[string]*issued{}}
+			ok := c.Parallel(len(rpoints), func(w, i int) {
+				eng.evaluate(c, rpoints[i], stats[w])
+				atomic.AddInt64(&resumeStates, 1)
+			})
+			c.States.Add(resumeStates)
+			c.Set("resume_axis_issue_configs", len(eng.issues))
+			if !ok {
+				c.Incomplete(fmt.Sprintf("budget hit in the resumption axis: %d of %d points run (base product complete)", resumeStates, len(rpoints)))
+			}
+			resumedSeen := false
+			for _, st := range stats {
+				for k := range st.hist {
+					if strings.HasPrefix(k, "resume axis:") && strings.HasSuffix(k, "-> resumed") {
+						resumedSeen = true
+					}
+				}
+			}
+			if ok && !resumedSeen {
+				c.Broken("resumption axis is vacuous: no connection 2 was resumed at all")
+			}
+		}
+
 		// ---- thorough: every byte position of every corrupted signature ----
 		sweepRuns := int64(0)
 		if !c.Quick() && done {
@@ -666,7 +793,7 @@ func main() {
 		}
 		c.Transitions.Add(recs)
 		c.Traces.Add(ident)
-		c.Distinct.Add(nontrivial.Load() + sweepRuns)
+		c.Distinct.Add(nontrivial.Load() + sweepRuns + resumeStates)
 		c.Set("handshake_runs", runs)
 		c.Set("runs_with_byte_identical_twin", ident)
 		c.Set("strict_isv", strictISV)
